@@ -141,8 +141,8 @@ func RunScanLogic(fsys FileSystem, pkgLoader PackageLoader, target string, opts 
 		scannedDeps = deps
 	}
 
-	// Deterministic Sort
-	sort.Slice(allAlerts, func(i, j int) bool {
+	// Deterministic Sort (stable: the input order is deterministic, ties keep it)
+	sort.SliceStable(allAlerts, func(i, j int) bool {
 		if allAlerts[i].MatchedFunction != allAlerts[j].MatchedFunction {
 			return allAlerts[i].MatchedFunction < allAlerts[j].MatchedFunction
 		}
@@ -184,7 +184,8 @@ func RunScanLogic(fsys FileSystem, pkgLoader PackageLoader, target string, opts 
 
 func RunScanParallel(fsys FileSystem, files []string, scanner SignatureScanner, exactOnly bool) ([]detection.ScanResult, int, error) {
 	var (
-		allAlerts      []detection.ScanResult
+		// One slot per input file: the report order must not depend on goroutine scheduling.
+		perFile        = make([][]detection.ScanResult, len(files))
 		totalFunctions int
 		mu             sync.Mutex
 	)
@@ -192,7 +193,8 @@ func RunScanParallel(fsys FileSystem, files []string, scanner SignatureScanner, 
 	g, ctx := errgroup.WithContext(context.Background())
 	g.SetLimit(runtime.GOMAXPROCS(0))
 
-	for _, file := range files {
+	for i, file := range files {
+		idx := i
 		f := file
 		g.Go(func() error {
 			// Panic recovery for robust scanning
@@ -242,7 +244,7 @@ func RunScanParallel(fsys FileSystem, files []string, scanner SignatureScanner, 
 			}
 
 			mu.Lock()
-			allAlerts = append(allAlerts, localAlerts...)
+			perFile[idx] = localAlerts
 			totalFunctions += localCount
 			mu.Unlock()
 			return nil
@@ -253,6 +255,10 @@ func RunScanParallel(fsys FileSystem, files []string, scanner SignatureScanner, 
 		return nil, 0, err
 	}
 
+	var allAlerts []detection.ScanResult
+	for _, alerts := range perFile {
+		allAlerts = append(allAlerts, alerts...)
+	}
 	return allAlerts, totalFunctions, nil
 }
 
@@ -336,8 +342,14 @@ func RunScanDeps(pkgLoader PackageLoader, target string, opts models.ScanOptions
 				continue
 			}
 
-			for _, member := range ssaPkg.Members {
-				switch m := member.(type) {
+			memberNames := make([]string, 0, len(ssaPkg.Members))
+			for name := range ssaPkg.Members {
+				memberNames = append(memberNames, name)
+			}
+			sort.Strings(memberNames)
+
+			for _, memberName := range memberNames {
+				switch m := ssaPkg.Members[memberName].(type) {
 				case *ssa.Function:
 					if m == nil || len(m.Blocks) == 0 {
 						continue
